@@ -330,14 +330,14 @@ def _loop(py, coq):
         if len(loops) != 1 or body[-1] is not loops[0]:
             raise Unsupported(f"{py}: expected exactly one trailing for loop")
         loop = loops[0]
-        carried, uses_m = [], False
+        lst = f.args.args[0].arg          # the list of results (whatever it is called)
+        carried, uses_m, mvar = [], False, "m"
         for s in body[:-1]:
             if not (isinstance(s, _ast.Assign) and isinstance(s.targets[0], _ast.Name)):
                 fail(s, "pre-loop statement")
             nm = s.targets[0].id
-            if _ast.unparse(s.value) == "len(metric_results)":
-                if nm != "m":
-                    fail(s, "length variable")
+            if _ast.unparse(s.value) == f"len({lst})":
+                mvar = nm
                 uses_m = True
             elif isinstance(s.value, _ast.Constant) and isinstance(s.value.value, int):
                 carried.append((nm, s.value.value))
@@ -354,40 +354,44 @@ def _loop(py, coq):
                 fail(loop, "enumerate keyword")
         srt = it.args[0]
         key = {k.arg: k.value for k in srt.keywords}.get("key") if isinstance(srt, _ast.Call) else None
-        if not (isinstance(srt, _ast.Call) and _ast.unparse(srt.func) == "sorted" and _ast.unparse(srt.args[0]) == "metric_results"
+        if not (isinstance(srt, _ast.Call) and _ast.unparse(srt.func) == "sorted" and _ast.unparse(srt.args[0]) == lst
                 and key is not None):
             fail(loop, "sorted(...)")
-        ks = _ast.unparse(key)
-        if ks == "lambda d: -d['pvalue']":
+        if not (isinstance(key, _ast.Lambda) and len(key.args.args) == 1):
+            fail(loop, "sort key")
+        ks = _ast.unparse(key.body).replace(key.args.args[0].arg + "[", "d[")     # the lambda's parameter name is immaterial
+        if ks == "-d['pvalue']":
             order = "(fun a b => nleb b a)"   # ascending in -p  =  descending in p
-        elif ks == "lambda d: d['pvalue']":
+        elif ks == "d['pvalue']":
             order = "nleb"
         else:
             fail(loop, "sort key " + ks)
         if not (isinstance(loop.target, _ast.Tuple) and len(loop.target.elts) == 2
-                and _ast.unparse(loop.target.elts[1]) == "metric_result"):
+                and all(isinstance(e, _ast.Name) for e in loop.target.elts)):
             fail(loop, "loop target")
         ivar = loop.target.elts[0].id
+        elem = loop.target.elts[1].id
         stmts = list(loop.body)
         # pvalue = metric_result["pvalue"]
         first = [s for s in stmts if isinstance(s, (_ast.Assign, _ast.AnnAssign))
-                 and _ast.unparse(s.value) == "metric_result['pvalue']"]
+                 and _ast.unparse(s.value) == f"{elem}['pvalue']"]
         if len(first) != 1:
             fail(loop, "pvalue binding")
         stmts.remove(first[0])
+        pname = (first[0].targets[0] if isinstance(first[0], _ast.Assign) else first[0].target).id
         last = stmts.pop()
         if not (isinstance(last, _ast.Expr) and isinstance(last.value, _ast.Call)
-                and _ast.unparse(last.value.func) == "metric_result.update" and not last.value.args):
-            fail(last, "loop must end with metric_result.update(...)")
+                and _ast.unparse(last.value.func) == f"{elem}.update" and not last.value.args):
+            fail(last, "loop must end with <element>.update(...)")
         kws = {k.arg: k.value for k in last.value.keywords}
         if set(kws) != {"pvalue_adj", "alpha_adj", "null_rejected"}:
             fail(last, "update keywords")
         nr = kws["null_rejected"]
         if not (isinstance(nr, _ast.Call) and _ast.unparse(nr.func) == "int" and len(nr.args) == 1):
             fail(last, "null_rejected must be int(<comparison>)")
-        env = {"adjust": ADJ_T, ivar: NUM, "pvalue": NUM}
+        env = {"adjust": ADJ_T, ivar: NUM, pname: NUM}
         if uses_m:
-            env["m"] = NUM
+            env[mvar] = NUM
         for nm, _ in carried:
             env[nm] = NUM
 
@@ -403,10 +407,10 @@ def _loop(py, coq):
         cpat = ", ".join(tr.var(nm) for nm, _ in carried)
         cty = " * ".join("num" for _ in carried)
         inits = ", ".join(f"(nlit {v})" for _, v in carried)
-        mparam = "(v_m : num) " if uses_m else ""
+        mparam = f"({tr.var(mvar)} : num) " if uses_m else ""
         marg = "(nofnat (length v_ps)) " if uses_m else ""
         return (f"(* {py} (line {f.lineno}): loop body; carried variables ({', '.join(n for n, _ in carried)}) *)\n"
-                f"Definition {coq}_body (v_adjust : num -> num -> num * num) {mparam}(carry : {cty}) (v_{ivar} : num) (v_pvalue : num)\n"
+                f"Definition {coq}_body (v_adjust : num -> num -> num * num) {mparam}(carry : {cty}) (v_{ivar} : num) ({tr.var(pname)} : num)\n"
                 f"    : ({cty}) * (num * num * bool) :=\n  let '({cpat}) := carry in\n  {text}.\n"
                 f"(* outputs (pvalue_adj, alpha_adj, null_rejected) in INPUT order; enumerate start = {start} *)\n"
                 f"Definition {coq} (v_adjust : num -> num -> num * num) (v_ps : list num) : list (num * num * bool) :=\n"
@@ -444,7 +448,7 @@ def _sr_emit(tr):
     src = [_ast.unparse(s) for s in body]
     want_head = ["aggr = tea_tasting.metrics.aggregate_by_variants(data, aggr_cols=self.aggr_cols, variant=variant)",
                  "k = aggr[treatment].count()", "n = k + aggr[control].count()"]
-    if src[:3] != want_head:
+    if src[:2] != want_head[:2] or src[2] not in (want_head[2], "n = aggr[control].count() + k"):
         raise Unsupported("SampleRatio.analyze head changed: " + str(src[:3]))
     if src[3] != "r = self.ratio if isinstance(self.ratio, float | int) else self.ratio[treatment] / self.ratio[control]":
         raise Unsupported("SampleRatio.analyze ratio selection changed: " + src[3])
@@ -552,18 +556,33 @@ def _datasets_emit(tr):
         env = {p: NUM for p in params + ["variant"]}
         binders = " ".join(f"(v_{p} : num)" for p in params + ["variant"])
         prelude = ""
-        names = ["sessions_mult", "orders_per_sessions_sample_size", "revenue_log_scale"]
-        if explode:
-            names.append("revenue_log_scale'")
-        names += ["orders_per_sessions_mult", "revenue_per_order_mult"]
-        for nm in names:
-            node = explode_assigns["revenue_log_scale"] if nm.endswith("'") else assigns.get(nm)
-            nm = nm.rstrip("'")
-            if node is None:
-                raise Unsupported(f"{nm} not assigned")
-            t, ty = tr.ex(node, env)
+        # every scalar helper assignment of _make_data (whatever it is called), in source order, becomes a let-binding;
+        # statements that are not scalar expressions over the parameters (arrays, the draws themselves) are skipped -
+        # a later use of a skipped name fails closed
+        def bind(nm, node):
+            nonlocal prelude
+            if "rng." in _ast.unparse(node):
+                return
+            try:
+                t, ty = tr.ex(node, env)
+            except Exception as e:  # noqa: BLE001 - py2coq.Unsupported (the class differs when py2coq runs as __main__)
+                if type(e).__name__ != "Unsupported":
+                    raise
+                return
+            if ty != NUM:
+                return
             prelude += f"let v_{nm} := {t} in\n  "
             env[nm] = ty
+        for n in f.body:
+            if isinstance(n, _ast.Assign) and isinstance(n.targets[0], _ast.Name):
+                if n.targets[0].id not in env or n.targets[0].id not in params + ["variant"]:
+                    bind(n.targets[0].id, n.value)
+            elif isinstance(n, _ast.If) and _ast.unparse(n.test) == "explode_sessions" and explode:
+                for m in n.body:
+                    bind(m.targets[0].id, m.value)
+        for nm in ("revenue_log_scale",):
+            if nm not in env:
+                raise Unsupported(f"{nm} not assigned")
 
         def define(name, node, extra="", extra_env=None, comment=""):
             e = dict(env)
